@@ -13,21 +13,32 @@ NSEG, NMSG, NCORE, NCOREM = len(SEG_ACTS), len(MSG_ACTS), len(CORE_SEG_ACTS), le
 NINIT_SEG, NINIT_MSG = 3, 2
 
 
-def run(target, init, acts, trace=None):
+REPLACING = (H.SET, H.SETLONG, H.SETELEM, H.SETDTOK)
+
+
+def run(target, init, acts, trace=None, level=TOL):
     """True iff after every step the real element encodes exactly as the list model says."""
     reset_defaults()
-    el, model = H.make(target, init, TOL)
+    el, model = H.make(target, init, level)
     if el.to_er7() != H.expected_er7(target, model):
         if trace is not None:
             trace.append('initial state: real %r expected %r' % (el.to_er7(), H.expected_er7(target, model)))
         return False
     for step, act in enumerate(acts, 1):
-        new = H.apply_model(target, model, act, step, TOL)
+        new = H.apply_model(target, model, act, step, level)
+        name = H.TARGETS[target]['names'][act[1]]
+        replaces = act[0] in REPLACING and any(nm == name for nm, _ in model)
         try:
-            H.apply_real(target, el, act, step, TOL)
+            H.apply_real(target, el, act, step, level)
             raised = None
         except Exception as e:
             raised = e
+        if raised is not None and replaces:
+            # replacing an existing child by a valid value of the same kind is an edit the list model always allows: under
+            # neither level may it be refused (e.g. because the old child still counts against the cardinality)
+            if trace is not None:
+                trace.append('%d. %s -> raised %r although it replaces an existing child' % (step, H.describe(target, act, step), raised))
+            return False
         if raised is None and new is not None:
             model = new
         # a refused operation (raised) leaves the model as it was; an operation the model refuses (absent index)
@@ -68,18 +79,22 @@ def _ob_seg3c(init: int, a1: int, a2: int, a3: int) -> bool:
         return run('seg', init, [CORE_SEG_ACTS[a1], CORE_SEG_ACTS[a2], CORE_SEG_ACTS[a3]])
 
 
+SEG3_ACTS = H.actions('seg', H.FULL_OPS, [0, 2], 2)      # length 3: every operation, on two of the three child names, repetitions 0..1
+NSEG3 = len(SEG3_ACTS)
+
+
 def _ob_seg3(init: int, a1: int, a2: int, a3: int) -> bool:
     """
-    pre: 0 <= init < NINIT_SEG and 1 <= a1 < NSEG and 1 <= a2 < NSEG and 1 <= a3 < NSEG
-    pre: in_part(a1 * NSEG + a2)
+    pre: 0 <= init < NINIT_SEG and 1 <= a1 < NSEG3 and 1 <= a2 < NSEG3 and 1 <= a3 < NSEG3
+    pre: in_part(a1 * NSEG3 + a2)
     post: _
     """
     init = H.concretize(init, NINIT_SEG)
-    a1 = H.concretize(a1, NSEG)
-    a2 = H.concretize(a2, NSEG)
-    a3 = H.concretize(a3, NSEG)
+    a1 = H.concretize(a1, NSEG3)
+    a2 = H.concretize(a2, NSEG3)
+    a3 = H.concretize(a3, NSEG3)
     with concrete():
-        return run('seg', init, [SEG_ACTS[a1], SEG_ACTS[a2], SEG_ACTS[a3]])
+        return run('seg', init, [SEG3_ACTS[a1], SEG3_ACTS[a2], SEG3_ACTS[a3]])
 
 
 def _ob_msg2(init: int, a1: int, a2: int) -> bool:
@@ -108,6 +123,32 @@ def _ob_fld2(init: int, a1: int, a2: int) -> bool:
         return run('fld', init, [FLD_ACTS[a1], FLD_ACTS[a2]])
 
 
+def _ob_seg2s(init: int, a1: int, a2: int) -> bool:
+    """
+    pre: 0 <= init < NINIT_SEG and 0 <= a1 < NSEG and 0 <= a2 < NSEG
+    pre: in_part(a1)
+    post: _
+    """
+    init = H.concretize(init, NINIT_SEG)
+    a1 = H.concretize(a1, NSEG)
+    a2 = H.concretize(a2, NSEG)
+    with concrete():
+        return run('seg', init, [SEG_ACTS[a1], SEG_ACTS[a2]], None, 1)
+
+
+def _ob_fld2s(init: int, a1: int, a2: int) -> bool:
+    """
+    pre: 0 <= init < NINIT_FLD and 0 <= a1 < NFLD and 0 <= a2 < NFLD
+    pre: in_part(a1)
+    post: _
+    """
+    init = H.concretize(init, NINIT_FLD)
+    a1 = H.concretize(a1, NFLD)
+    a2 = H.concretize(a2, NFLD)
+    with concrete():
+        return run('fld', init, [FLD_ACTS[a1], FLD_ACTS[a2]], None, 1)
+
+
 def _ob_msg3c(init: int, a1: int, a2: int, a3: int) -> bool:
     """
     pre: 0 <= init < NINIT_MSG and 1 <= a1 < NCOREM and 1 <= a2 < NCOREM and 1 <= a3 < NCOREM
@@ -122,8 +163,10 @@ def _ob_msg3c(init: int, a1: int, a2: int, a3: int) -> bool:
         return run('msg', init, [CORE_MSG_ACTS[a1], CORE_MSG_ACTS[a2], CORE_MSG_ACTS[a3]])
 
 
-OBS = {'_ob_seg2': ('seg', SEG_ACTS), '_ob_seg3c': ('seg', CORE_SEG_ACTS), '_ob_seg3': ('seg', SEG_ACTS),
-       '_ob_msg2': ('msg', MSG_ACTS), '_ob_msg3c': ('msg', CORE_MSG_ACTS), '_ob_fld2': ('fld', FLD_ACTS)}
+OBS = {'_ob_seg2': ('seg', SEG_ACTS), '_ob_seg3c': ('seg', CORE_SEG_ACTS), '_ob_seg3': ('seg', SEG3_ACTS),
+       '_ob_msg2': ('msg', MSG_ACTS), '_ob_msg3c': ('msg', CORE_MSG_ACTS), '_ob_fld2': ('fld', FLD_ACTS),
+       '_ob_seg2s': ('seg', SEG_ACTS), '_ob_fld2s': ('fld', FLD_ACTS)}
+STRICT_OBS = ('_ob_seg2s', '_ob_fld2s')
 
 
 def explain(call):
@@ -135,9 +178,10 @@ def explain(call):
     v.update(k)
     acts = [alphabet[v[x]] for x in ('a1', 'a2', 'a3') if x in v]
     tr = []
-    el, model = H.make(target, v['init'], TOL)
-    tr.append('target %s, initial state (init=%d): %r' % (target, v['init'], el.to_er7()))
-    run(target, v['init'], acts, tr)
+    level = 1 if m.group(1) in STRICT_OBS else TOL
+    el, model = H.make(target, v['init'], level)
+    tr.append('target %s, %s, initial state (init=%d): %r' % (target, 'STRICT' if level == 1 else 'TOLERANT', v['init'], el.to_er7()))
+    run(target, v['init'], acts, tr, level)
     return '\n'.join(tr)
 
 
@@ -150,14 +194,14 @@ SPEC = {
                           'create_element/_can_add_child', 'hl7apy.core.ElementProxy.__setitem__/__delitem__/__getitem__',
                           'hl7apy.core.Element.__setattr__/__delattr__/add/_set_parent', 'hl7apy.core.Segment.add/add_field/'
                           'to_er7/_get_children', 'hl7apy.core.Group.add_segment/_get_children', 'hl7apy.core.Message'],
-    'assumptions': ['TOLERANT validation level, HL7 v2.5',
+    'assumptions': ['HL7 v2.5; TOLERANT validation level, and STRICT for the length-2 histories on segment and field (under STRICT a group or message encodes in structure order, which is the recorded finding C05-strict-structure-order)',
                     'a call that raises is treated as refused (model unchanged); what a refused call may leave behind is C12',
                     'reference model and reference encoder are written in harness/hist.py and use no hl7apy logic',
                     'every action index is symbolic; CrossHair/z3 enumerate the finite action space (fork per value) and '
                     'certify that it was exhausted; once a path has fixed the history, the library code runs concretely '
                     '(untraced) on it - the solver contributes exhaustion and counterexamples, not abstraction, here'],
     'outside': ['histories longer than the bound; children other than PID_3/PID_5/PID_8 of PID and NK1/OBX/AL1 of ADT_A01; '
-                'groups as targets; fields other than PID_5 (components XPN_1/XPN_2/XPN_7); STRICT'],
+                'groups as targets; fields other than PID_5 (components XPN_1/XPN_2/XPN_7); STRICT on messages'],
     'stubs': [],
     'obligations': [
         {'name': 'seg.len2', 'fn': '_ob_seg2', 'parts': 16, 'cond_timeout': 600, 'path_timeout': 40,
@@ -166,11 +210,17 @@ SPEC = {
          'bound': 'Message ADT_A01, %d initial states x every history of length <=2 over %d actions (%s)' % (NINIT_MSG, NMSG, _FULL)},
         {'name': 'fld.len2', 'fn': '_ob_fld2', 'parts': 16, 'cond_timeout': 600, 'path_timeout': 40,
          'bound': 'Field PID_5, %d initial states x every history of length <=2 over %d actions (%s)' % (NINIT_FLD, NFLD, _FULL)},
+        {'name': 'seg.len2.strict', 'fn': '_ob_seg2s', 'parts': 16, 'cond_timeout': 600, 'path_timeout': 40,
+         'bound': 'the same histories of length <=2 on Segment PID under STRICT (a refused call leaves the model as it was; a call that '
+                  'replaces an existing child must not be refused)'},
+        {'name': 'fld.len2.strict', 'fn': '_ob_fld2s', 'parts': 16, 'cond_timeout': 600, 'path_timeout': 40,
+         'bound': 'the same histories of length <=2 on Field PID_5 under STRICT'},
         {'name': 'seg.len3.core', 'fn': '_ob_seg3c', 'parts': 32, 'cond_timeout': 900, 'path_timeout': 40,
          'bound': 'Segment PID, %d initial states x every history of length 3 over the %d core actions (%s)' % (NINIT_SEG, NCORE - 1, _CORE)},
     ] + ([
         {'name': 'seg.len3.full', 'fn': '_ob_seg3', 'parts': 96, 'cond_timeout': 3000, 'path_timeout': 40,
-         'bound': 'Segment PID, %d initial states x every history of length 3 over %d actions' % (NINIT_SEG, NSEG - 1)},
+         'bound': 'Segment PID, %d initial states x every history of length 3 over %d actions (every operation, child names PID_3 / '
+                  'PID_8, repetitions 0..1)' % (NINIT_SEG, NSEG3 - 1)},
         {'name': 'msg.len3.core', 'fn': '_ob_msg3c', 'parts': 32, 'cond_timeout': 3000, 'path_timeout': 60,
          'bound': 'Message ADT_A01, %d initial states x every history of length 3 over the %d core actions' % (NINIT_MSG, NCOREM - 1)},
     ] if THOROUGH else []),
